@@ -28,7 +28,7 @@ STUBS = LOOP_STUBS + [
 ]
 ASSUMPTIONS = ["peer byte stream = 0,1,2,... so that order / loss / duplication are visible; chunk lengths 1..3, max_bytes in [1,3] symbolic"]
 OUTSIDE = ["real kernel buffer behaviour, TCP loopback, 'several socket buffers' worth of data", "uvloop transports", "receive_fds/send_fds, datagram sockets", "trio"]
-MUST_REACH = ["tcp:chunk-split-on-max_bytes", "tcp:eof-after-data", "tcp:send-waited-for-write-gate", "tcp:closed-while-receiving", "tcp:busy-rejected",
+MUST_REACH = ["tcp:chunk-split-on-max_bytes", "tcp:eof-after-data", "tcp:data-arrived-before-first-receive", "tcp:send-waited-for-write-gate", "tcp:closed-while-receiving", "tcp:busy-rejected",
               "unix:partial-recv", "unix:partial-send", "unix:eof", "unix:closed-while-receiving"]
 
 
@@ -144,6 +144,7 @@ def tcp(sym, cov, mode, eager=False, T=1, N=4, busy=False):
         sym.assume(t2 <= te)
         mb = sym.int("mb", 1, 3)
         rd = sym.int("rd", 0, T) if mode == "recv" else 0  # reader delay between receives
+        fd = sym.int("fd", 0, T + 1) if (mode == "recv" and not busy) else 0  # delay before the first receive
         total = l1 + l2
     if mode == "send":
         blk1 = sym.bool("blk1")
@@ -157,20 +158,43 @@ def tcp(sym, cov, mode, eager=False, T=1, N=4, busy=False):
         xj = sym.int("xj", 0, 1)
 
     async def main():
-        proto = B.StreamProtocol()
-        tr = FakeTransport(loop, proto)
-        proto.connection_made(tr)
-        stream = B.SocketStream(tr, proto)
+        # the stream is obtained through the real AsyncIOBackend.connect_tcp(); only loop.create_connection is the stub
+        made = {}
+
+        async def create_connection(protocol_factory, host=None, port=None, **kw):
+            proto_ = protocol_factory()
+            tr_ = FakeTransport(loop, proto_)
+            proto_.connection_made(tr_)
+            made["tr"], made["proto"] = tr_, proto_
+            return tr_, proto_
+
+        loop.create_connection = create_connection
+        stream = await B.AsyncIOBackend.connect_tcp("peer", 1)
+        tr, proto = made["tr"], made["proto"]
+        receiving = {"n": 0}
+
+        def deliver(kind, data=None):
+            # back-pressure on the receive side: while nobody is inside receive() the transport must be paused,
+            # otherwise the stream keeps pulling data from the kernel into its queue without bound
+            if tr.reading and receiving["n"] == 0 and not tr.lost and not tr.closing:
+                bad("transport-left-reading-while-nobody-receives", {"kind": kind})
+            tr.deliver(kind, data)
+
         if mode in ("recv", "close"):
             data = bytes(range(8))
-            loop.env_at(t1, 0, lambda: tr.deliver("data", data[:l1]))
-            loop.env_at(t2, 1, lambda: tr.deliver("data", data[l1:l1 + l2]))
-            loop.env_at(te, 2, lambda: tr.deliver("eof"))
+            loop.env_at(t1, 0, lambda: deliver("data", data[:l1]))
+            loop.env_at(t2, 1, lambda: deliver("data", data[l1:l1 + l2]))
+            loop.env_at(te, 2, lambda: deliver("eof"))
 
             async def reader():
+                await anyio.sleep(fd)  # the reader may start late
                 while True:
                     try:
-                        c = await stream.receive(mb)
+                        receiving["n"] += 1
+                        try:
+                            c = await stream.receive(mb)
+                        finally:
+                            receiving["n"] -= 1
                     except EndOfStream:
                         out["end"] = "eof"
                         return
@@ -188,7 +212,11 @@ def tcp(sym, cov, mode, eager=False, T=1, N=4, busy=False):
             async def second_reader():
                 await anyio.sleep(0)
                 try:
-                    await stream.receive(1)
+                    receiving["n"] += 1
+                    try:
+                        await stream.receive(1)
+                    finally:
+                        receiving["n"] -= 1
                     out["second"] = "accepted"
                 except BusyResourceError:
                     out["second"] = "busy"
@@ -267,6 +295,7 @@ def tcp(sym, cov, mode, eager=False, T=1, N=4, busy=False):
             chk(out.get("end") == "eof", "no-end-of-stream", out.get("end"))
             chk(got == want, "bytes-lost-before-end-of-stream", {"got": got.hex(), "sent": want.hex()})
             cov.hit("tcp:eof-after-data")
+            cov.hit("tcp:data-arrived-before-first-receive", (not busy) and t1 < fd)
             cov.hit("tcp:chunk-split-on-max_bytes", len(out["chunks"]) > 2)
         else:
             chk(out.get("end") in ("closed", "eof"), "receive-after-close-wrong-ending", out.get("end"))
